@@ -240,7 +240,7 @@ inductive Res (ν : Type) where
   | syncOk
   | syncErr (e : SyncErr)
   | panic
-  deriving Repr
+  deriving Repr, DecidableEq
 
 /-- `get_raw`. -/
 def getRaw (cfg : Config) (rem : Nat) (k : κ) (s : Sess κ ν) (w : World κ ν) : Res ν × Sess κ ν × World κ ν :=
@@ -451,7 +451,7 @@ inductive Fin (κ ν : Type) where
   | none
   | err (e : FinErr)
   | panic
-  deriving Repr
+  deriving Repr, DecidableEq
 
 /-- `Session::finalize`. -/
 def finalize (cfg : Config) (s : Sess κ ν) (w : World κ ν) : Fin κ ν × Sess κ ν × World κ ν :=
